@@ -8,6 +8,7 @@ Import-free apart from the script model and the generated tables.
 import SdModel.Model.Script
 import SdModel.Model.UArr
 import SdModel.Model.UMap
+import SdModel.Model.RMap
 import SdModel.Gen.Params
 
 namespace Codec
@@ -262,6 +263,81 @@ def decMDiff (f : Fmt) (bs : Bytes) : Option (UMap.Diff Nat Nat × Bytes) :=
     match ctorOf (tablesUMapDiff f).2.2 t with
     | some 0 => (decList decPair bs).map fun (l, r) => (.replace l, r)
     | some 1 => (decList (decMChange f) bs).map fun (es, r) => (.modify es, r)
+    | _ => none
+
+
+/-! recursive map-like : generic in the codec of the values and of the nested diff lists (`Vec<V::Diff>`), which are
+produced by the codec derives for the user's value type -/
+
+/-- an encoder / decoder pair for some payload type -/
+structure Cdc (β : Type) where
+  enc : β → Bytes
+  dec : Bytes → Option (β × Bytes)
+
+def tablesRMapChange : Fmt → List Nat × List Nat × List (Nat × Nat)
+  | .nano => (Gen.nanoRMapChangeOwnedEnc, Gen.nanoRMapChangeRefEnc, Gen.nanoRMapChangeOwnedDec)
+  | .bincode => (Gen.serdeRMapChangeOwnedIdx, Gen.serdeRMapChangeRefIdx, Gen.serdeRMapChangeOwnedIdx.zipIdx)
+def tablesRMapDiff : Fmt → List Nat × List Nat × List (Nat × Nat)
+  | .nano => (Gen.nanoRMapDiffOwnedEnc, Gen.nanoRMapDiffRefEnc, Gen.nanoRMapDiffOwnedDec)
+  | .bincode => (Gen.serdeRMapDiffOwnedIdx, Gen.serdeRMapDiffRefIdx, Gen.serdeRMapDiffOwnedIdx.zipIdx)
+
+variable {ν δ : Type}
+
+def rctorIdx : RMap.Change Nat ν δ → Nat
+  | .insert .. => 0 | .remove .. => 1 | .change .. => 2
+
+/-- `Insert((K, V))`, `Remove(K)`, `Change((K, Vec<V::Diff>))` -/
+def encRChangeWith (f : Fmt) (table : List Nat) (V : Cdc ν) (D : Cdc δ) (c : RMap.Change Nat ν δ) : Bytes :=
+  encTag f (tagOf table (rctorIdx c)) ++
+  match c with
+  | .insert k v => encElem k ++ V.enc v
+  | .remove k => encElem k
+  | .change k d => encElem k ++ D.enc d
+
+def encRChange (f : Fmt) (V : Cdc ν) (D : Cdc δ) (c : RMap.Change Nat ν δ) : Bytes := encRChangeWith f (tablesRMapChange f).1 V D c
+def encRChangeRef (f : Fmt) (V : Cdc ν) (D : Cdc δ) (c : RMap.Change Nat ν δ) : Bytes := encRChangeWith f (tablesRMapChange f).2.1 V D c
+
+def decRChange (f : Fmt) (V : Cdc ν) (D : Cdc δ) (bs : Bytes) : Option (RMap.Change Nat ν δ × Bytes) :=
+  match decTag f bs with
+  | none => none
+  | some (t, bs) =>
+    match ctorOf (tablesRMapChange f).2.2 t with
+    | some 0 => match decElem bs with
+      | some (k, bs) => (V.dec bs).map fun (v, r) => (.insert k v, r)
+      | none => none
+    | some 1 => (decElem bs).map fun (k, r) => (.remove k, r)
+    | some 2 => match decElem bs with
+      | some (k, bs) => (D.dec bs).map fun (d, r) => (.change k d, r)
+      | none => none
+    | _ => none
+
+def encKV (V : Cdc ν) (kv : Nat × ν) : Bytes := encElem kv.1 ++ V.enc kv.2
+def decKV (V : Cdc ν) (bs : Bytes) : Option ((Nat × ν) × Bytes) :=
+  match decElem bs with
+  | some (k, bs) => (V.dec bs).map fun (v, r) => ((k, v), r)
+  | none => none
+
+def rdiffIdx : RMap.Diff Nat ν δ → Nat
+  | .replace _ => 0 | .modify _ => 1
+
+def encRDiffWith (f : Fmt) (tD : List Nat) (V : Cdc ν) (encC : RMap.Change Nat ν δ → Bytes) (d : RMap.Diff Nat ν δ) : Bytes :=
+  encTag f (tagOf tD (rdiffIdx d)) ++
+  match d with
+  | .replace l => encList (encKV V) l
+  | .modify es => encList encC es
+
+def encRDiff (f : Fmt) (V : Cdc ν) (D : Cdc δ) (d : RMap.Diff Nat ν δ) : Bytes :=
+  encRDiffWith f (tablesRMapDiff f).1 V (encRChange f V D) d
+def encRDiffRef (f : Fmt) (V : Cdc ν) (D : Cdc δ) (d : RMap.Diff Nat ν δ) : Bytes :=
+  encRDiffWith f (tablesRMapDiff f).2.1 V (encRChangeRef f V D) d
+
+def decRDiff (f : Fmt) (V : Cdc ν) (D : Cdc δ) (bs : Bytes) : Option (RMap.Diff Nat ν δ × Bytes) :=
+  match decTag f bs with
+  | none => none
+  | some (t, bs) =>
+    match ctorOf (tablesRMapDiff f).2.2 t with
+    | some 0 => (decList (decKV V) bs).map fun (l, r) => (.replace l, r)
+    | some 1 => (decList (decRChange f V D) bs).map fun (es, r) => (.modify es, r)
     | _ => none
 
 end Codec
